@@ -518,9 +518,9 @@ def gen_config(rng, tbl, max_ctx=4, max_tests=3, window_layout=None, fault_kinds
                 continue
             c["entries"].insert(rng.randint(0, len(c["entries"])), e)
             nf += 1
-    if fault_kinds and max_faults and rng.chance(0.08):
+    if fault_kinds and max_faults and rng.chance(0.12):
         # a storm: a dozen entries of one fault kind in one run (log throttles, counters and caches see many of them)
-        kind = rng.pick(list(fault_kinds))
+        kind = "F5" if "F5" in fault_kinds and rng.chance(0.4) else rng.pick(list(fault_kinds))
         for k in range(rng.randint(11, 16)):
             c = rng.pick(contexts)
             sid = rng.pick(sids)
